@@ -1254,3 +1254,8 @@ Proof.
     split; [assumption|]. apply refs_of_In. eauto.
   - intros f Hf. now apply Halloc.
 Qed.
+
+(* Pipeline.run validates its keywords before anything else (Pipe.run_precheck); when it passes, the call is lazy_run *)
+Lemma lazy_run_checked_pass p o kw full dagon :
+  run_precheck p o kw = Ok tt -> lazy_run_checked p o kw full dagon = lazy_run p o kw full dagon.
+Proof. unfold lazy_run_checked. now intros ->. Qed.
